@@ -120,6 +120,7 @@ def gen_case(rng, vector=None, nfaces=None, N=None):
             # the table is keyed by the labels, the model works on positions
             "labels": None if rng.random() < 0.7 else rng.choice([list(range(1, nfaces + 1)),
                                                                    rng.sample(range(0, 9), nfaces)]),
+            "links_as_lists": rng.random() < 0.25,
             "dtype": rng.choice(["float64", "float64", "int64", "float32"]),
             "partner_dtype": rng.choice(["float64", "int64", "float32"]), "warmup": rng.random() < 0.3}
 
@@ -150,7 +151,8 @@ def build(case):
     L = (lambda f: lab[f]) if lab else (lambda f: f)
     if lab:
         ds = ds.assign_coords(face=("face", list(lab)))
-    lk = lambda l: (L(l[0]), l[1], l[2]) if l is not None else None
+    seq = list if case.get("links_as_lists") else tuple      # a table read from JSON / YAML spells links as lists
+    lk = lambda l: seq((L(l[0]), l[1], l[2])) if l is not None else None
     fc = {"face": {L(f): {a: (lk(l), lk(r)) for a, (l, r) in fal} for f, fal in case["conn"]}}
     g = Grid(ds, coords=coords, periodic=c["periodic"], boundary=c["boundary"], fill_value=c["fill"],
              face_connections=fc, autoparse_metadata=False)
